@@ -8,7 +8,7 @@ def main():
     g = {"unit": unit, "inject": inject, "crate": crate}
     with kani.Scratch([g]) as sc:
         for h in kani.parse_harnesses(unit):
-            if h["kind"] != "witness" or (only and h["harness"] not in only):
+            if h["kind"] not in ("witness", "scenario") or (only and h["harness"] not in only):
                 continue
             h["crate"] = crate
             failed, out = kani.replay_on_real_code(sc, h, "")
